@@ -38,6 +38,9 @@ def shards_for(run: Run) -> list[dict]:
                 "seed": seed_int(PROP, run.seed, "mx", j), "cap": run.pick(300, 700), "maxlen": 4, "extra_alpha": " #", "sample_at": 10**9,
             }
         )
+    from pv.checks import _engine_check as E
+
+    shards += E.scale_shards(PROP, run, JUDGES, modes=MODES)
     return shards
 
 
